@@ -108,8 +108,15 @@ def run(ctx):
     if npsa != npool or npsh != npool:
         raise common.CheckError("GEN produced %d AVC / %d HEVC parameter sets instead of %d" % (npsa, npsh, npool))
     profiles = sorted(set(int(l.split("\t")[4].split(".")[2]) for l in pool_lines if l.startswith("PSA\t")))
+    gi = [l.split("\t") for l in pool_lines if l.startswith("GI\t")]
+    def gcount(kind, key):
+        return sum(1 for g in gi if g[1] == kind and (key + "=1") in g)
     ctx.notes["generated_parameter_sets"] = {
         "avc_sets": npsa, "hevc_sets": npsh, "avc_profile_idc_values": profiles,
+        "avc_first_sps_with_nonsquare_sample_aspect_ratio": gcount("A", "nonsquare_sar"),
+        "avc_first_sps_cropped": gcount("A", "cropped"), "avc_first_sps_field_coded": gcount("A", "field_coded"),
+        "hevc_first_sps_with_nonsquare_sample_aspect_ratio": gcount("H", "nonsquare_sar"),
+        "hevc_first_sps_with_conformance_window": gcount("H", "cropped"),
         "avc_chroma_formats": sorted(set(int(l.split("\t")[4].split(".")[5]) for l in pool_lines if l.startswith("PSA\t"))),
         "hevc_profile_idc_values": sorted(set(int(l.split("\t")[4].split(".")[4]) for l in pool_lines if l.startswith("PSH\t"))),
         "hevc_chroma_formats": sorted(set(int(l.split("\t")[4].split(".")[8]) for l in pool_lines if l.startswith("PSH\t"))),
